@@ -13,9 +13,11 @@ what decoding rebuilds, what a successful load guarantees).
        holds under that normalisation (`assignNeighbors_unique_literal`).
  * §4  `decode_encode_eq` (exact value of `decode (encode K)`), `decode_encode` (the requested
        list of kept data), `decode_encode_eraseInc` (literal round trip modulo incident pointers).
- * §5  `decode_ok_guarantees` (Level 1, no over-shared facet, known vertices, no duplicate cell)
+ * §5  `decode_ok_guarantees` (Level 1, no over-shared facet, known vertices, no duplicate cell,
+       pairwise distinct vertex uuids)
        + `decode_accepts_incoherent` (known gap F7b).
- * §6  `decode_rejects_*`: concrete rejected documents (incl. `decode_rejects_duplicate_cell`).
+ * §6  `decode_rejects_*`: concrete rejected documents (incl. `decode_rejects_duplicate_cell`,
+       `decode_rejects_duplicate_vertex_uuid`).
 
 Helper lemmas live in Lemmas/SerdeAux.lean.  Everything here is core-only.
 -/
@@ -219,7 +221,7 @@ theorem decode_encode_eq (K : Cx) (h1 : checkL1 K = true) (h2 : checkL2 K = true
         verts := assignIncident (K.verts.map (fun v => (v.id, v.pt))) (K.cells.map (reCell K))
         cells := K.cells.map (reCell K) } := by
   obtain ⟨hverts, hcells⟩ := (C05.checkL1_iff K).1 h1
-  obtain ⟨⟨_, hnd⟩, hex, _, hdup, hle, _, _⟩ := (C05.checkL2_iff K).1 h2
+  obtain ⟨⟨hndv, hnd⟩, hex, _, hdup, hle, _, _⟩ := (C05.checkL2_iff K).1 h2
   have hb : builtCx (encode K) (idVs K.cells) =
       { D := K.D
         verts := assignIncident (K.verts.map (fun v => (v.id, v.pt))) (K.cells.map (reCell K))
@@ -228,7 +230,15 @@ theorem decode_encode_eq (K : Cx) (h1 : checkL1 K = true) (h2 : checkL2 K = true
     rw [rawCells_map_reCell]
     rfl
   rw [← hb, decode_eq_some_iff]
-  refine ⟨idVs K.cells, tableRows_encode K hnd, ?_, ?_, ?_, ?_, rfl⟩
+  have hvids : ((encode K).verts.map (·.1)).Nodup := by
+    have e : (encode K).verts.map (·.1) = K.verts.map (·.id) := by
+      unfold encode
+      dsimp only
+      rw [List.map_map]
+      rfl
+    rw [e]
+    exact hndv
+  refine ⟨hvids, idVs K.cells, tableRows_encode K hnd, ?_, ?_, ?_, ?_, rfl⟩
   · -- every listed vertex uuid is stored
     unfold rowsKnown idVs
     simp only [List.all_eq_true, List.mem_map, List.any_eq_true, beq_iff_eq]
@@ -302,15 +312,21 @@ theorem decode_encode_eraseInc (K : Cx) (h1 : checkL1 K = true) (h2 : checkL2 K 
 /-! ## §5 what a successful load guarantees — and what it does not -/
 
 /-- whatever the document: a successful `decode` returns a complex that passes Level 1, has no
-facet shared by more than two cells, whose cells only name stored vertices, and in which no two
-cells have the same vertex set (fix F7c) -/
+facet shared by more than two cells, whose cells only name stored vertices, in which no two
+cells have the same vertex set (fix F7c), and whose vertex uuids are pairwise distinct (duplicate
+vertex uuid rejected) -/
 theorem decode_ok_guarantees (doc : Doc) (K : Cx) (h : decode doc = some K) :
     checkL1 K = true ∧
     (∀ f ∈ allFacets K, facetDeg K f.1 ≤ 2) ∧
     (∀ c ∈ K.cells, ∀ v ∈ c.vs, ∃ x ∈ K.verts, x.id = v) ∧
-    noDupCells K = true := by
-  obtain ⟨cvs, _, hknown, hle, hl1, hdup, rfl⟩ := (decode_eq_some_iff doc K).1 h
-  refine ⟨hl1, ?_, ?_, hdup⟩
+    noDupCells K = true ∧
+    (K.verts.map (·.id)).Nodup := by
+  obtain ⟨hvnd, cvs, _, hknown, hle, hl1, hdup, rfl⟩ := (decode_eq_some_iff doc K).1 h
+  refine ⟨hl1, ?_, ?_, hdup, ?_⟩
+  rotate_right
+  · show ((assignIncident doc.verts _).map (·.id)).Nodup
+    rw [assignIncident_ids]
+    exact hvnd
   · have : idVs (builtCx doc cvs).cells = idVs (rawCx doc.D cvs).cells := by
       rw [idVs_builtCx]
       exact (idVs_rawCells cvs).symm
@@ -336,7 +352,7 @@ vertices exactly the document's -/
 theorem decode_ok_content (doc : Doc) (K : Cx) (h : decode doc = some K) :
     K.D = doc.D ∧ K.verts.map (fun v => (v.id, v.pt)) = doc.verts ∧
     K.cells.map (·.id) = doc.cells ∧ assignNeighbors K = some K.cells := by
-  obtain ⟨cvs, hrows, _, hle, _, _, rfl⟩ := (decode_eq_some_iff doc K).1 h
+  obtain ⟨_, cvs, hrows, _, hle, _, _, rfl⟩ := (decode_eq_some_iff doc K).1 h
   refine ⟨rfl, assignIncident_idpt _ _, ?_, ?_⟩
   · have e := idVs_builtCx doc cvs
     have : (builtCx doc cvs).cells.map (·.id) = (idVs (builtCx doc cvs).cells).map (·.1) := by
@@ -449,6 +465,38 @@ the duplicate alone -/
 example :
     (decode { dupCellDoc with cells := [0, 2], table := [(0, [0, 1, 2]), (2, [2, 3, 4])] }).isSome
       = true := by decide
+
+/-- the unit square plus a fifth record `(2, 2)` that reuses uuid `0` of the first record; the
+single cell `[0, 1, 2]` is well formed and names stored vertices only -/
+def dupVertexUuidDoc : Doc :=
+  { D := 2, verts := sqVerts ++ [(0, ipt 2 2)], cells := [0], table := [(0, [0, 1, 2])] }
+
+/-- **Duplicate vertex uuid.**  Two vertex records with the same uuid: rejected -/
+theorem decode_rejects_duplicate_vertex_uuid : decode dupVertexUuidDoc = none := by decide
+
+/-- … and for that reason only: the cell has a table row, every listed vertex is stored, no facet
+is over-shared, the rebuilt complex passes Level 1 and has no duplicate cell — only the
+vertex-uuid test fails -/
+theorem dupVertexUuidDoc_fails_only_vertIdsNodup :
+    vertIdsNodup dupVertexUuidDoc = false ∧
+    tableRows dupVertexUuidDoc = some dupVertexUuidDoc.table ∧
+    rowsKnown dupVertexUuidDoc dupVertexUuidDoc.table = true ∧
+    (assignNeighbors (rawCx dupVertexUuidDoc.D dupVertexUuidDoc.table)).isSome = true ∧
+    checkL1 (builtCx dupVertexUuidDoc dupVertexUuidDoc.table) = true ∧
+    noDupCells (builtCx dupVertexUuidDoc dupVertexUuidDoc.table) = true := by decide
+
+/-- in general: ANY document in which two vertex records share a uuid is rejected -/
+theorem decode_rejects_any_duplicate_vertex_uuid (doc : Doc)
+    (h : ¬ (doc.verts.map (·.1)).Nodup) : decode doc = none :=
+  decode_eq_none_of_dup doc h
+
+/-- the same document with the duplicate record removed is accepted: the rejection above is due to
+the duplicate uuid alone -/
+example : (decode { dupVertexUuidDoc with verts := sqVerts }).isSome = true := by decide
+
+/-- … and so is the same document with the duplicate record given a fresh uuid -/
+example :
+    (decode { dupVertexUuidDoc with verts := sqVerts ++ [(4, ipt 2 2)] }).isSome = true := by decide
 
 /-- a vertex with a non-finite coordinate -/
 theorem decode_rejects_nonfinite_vertex :
